@@ -114,11 +114,13 @@ def feats_of(op, i, case):
         if any(v == [] for _, v in kw): f.append('empty-list')
         if any(not isinstance(v, list) for _, v in kw): f.append('scalar-value')
         if len(kw) >= 2: f.append('conjunction')
+        if any(k.replace('no_', '') in ('score', 'flag', 'tag') for k, _ in kw): f.append('added-column-key')
         if op[0] == 'get':
             pieces = [p.strip() for p in cols.split(',')]
             if 'rowID' in pieces: f.append('rowID-attribute')
             if len(pieces) > 1: f.append('multi-attribute')
             if cols == '*': f.append('star')
+            if any(q in ('score', 'flag', 'tag') for q in pieces): f.append('added-column-attribute')
         else:
             f.append('view-' + op[0])
         if i == ['OK', []]: f.append('empty-result')
@@ -185,6 +187,19 @@ def explore(ctx, tier, rng, search=False):
             elif r < 0.95: ops.append(['chains', tn, kw])
             elif r < 0.98 and two: ops.append(['get_all', rand_columns(rng), kw])
             else: ops.append(['colnames'])
+        # a column added to the table in the middle of the session is an attribute like any other: it can be
+        # requested, alone or with others, and used in conditions (the object has already answered queries before)
+        if rng.random() < 0.3 and not any(x == 'ENDMDL' for x in struct):
+            cname, ctype, cval = rng.choice([('score', 'FLOAT', 2.5), ('flag', 'INT', 7), ('score', 'FLOAT', 0.0), ('tag', 'TEXT', 'x')])
+            at = rng.randint(1, len(ops) - 1)
+            tail = []
+            for _ in range(rng.randint(3, 10)):
+                r = rng.random()
+                if r < 0.4: tail.append(['get', cname, names[0], rand_kw(rng, atoms, nmax=2)])
+                elif r < 0.7: tail.append(['get', rng.choice(['name,%s,rowID' % cname, '%s,x' % cname, 'rowID,%s' % cname]), names[0], rand_kw(rng, atoms, nmax=2)])
+                elif r < 0.9: tail.append(['get', rand_columns(rng), names[0], [[rng.choice([cname, 'no_' + cname]), rng.choice([cval, [cval], 99])]]])
+                else: tail.append(['colnames'])
+            ops[at:at] = [['add_column', cname, ctype, cval, names[0]]] + tail
         cases.append({'structs': structs, 'ops': ops, 'part': 'random'})
     # ---- the two recorded finding classes, on purpose (a few)
     for t in range(6 if deep else 3):
